@@ -692,7 +692,7 @@ def molecule_pool(ctx):
     pool += overlap_instances(ctx, 1 if ctx.quick else 3)
     pool += multi_ligand_instances(ctx, (2, 3) if ctx.quick else (2, 3, 4), 10 if ctx.quick else 40)
     pool += azolium_instances()
-    pool += hetarene_pairs(ctx, 8 if ctx.quick else 144)
+    pool += hetarene_pairs(ctx, 8 if ctx.quick else 60)
     if not ctx.quick:
         g = grid_instances(ctx)
         pool += g
